@@ -497,7 +497,7 @@ func runC03(t fataler, mode c03Mode, frames []ref.Frame, stream []byte, sizes []
 func TestC03(t *testing.T) {
 	rec := evid.For("C03")
 	rec.Rule = "rapid-generated inbound streams from an independent encoder: 1-5 messages with drawn fragmentation (incl. empty fragments, runs of 20-300 empty continuation frames, cuts inside compressed payloads), foreign deflater variants (sync, BFINAL=1+00, stored, multi-flush, levels), interleaved Ping/Pong at every position, 0-2 injected violations or a valid Close, non-minimal lengths (comparison stops there), over 9 (role, negotiated compression) settings obtained through the real handshake, transport chunking down to 1 byte, in a quarter of the cases a quiet period of 6 or 20 s (virtual) before a drawn frame while the reader waits, in a quarter of the server cases the beginning of the stream pipelined with the handshake request, read through Reader with buffer sizes 1..100000 or through Conn.Read; compared with the reference receiver. Non-trivial: a control frame inside a fragmented message, or an injected violation/Close, or a compressed message in >=2 fragments. distinct = hash(mode, frame shape sequence, violation kinds, chunking kind)."
-	rapid.Check(t, func(rt *rapid.T) {
+	checkProp(t, func(rt *rapid.T) {
 		mode := rapid.SampledFrom(c03Modes).Draw(rt, "mode")
 		deflate := mode.Mode != websocket.CompressionDisabled
 		takeover := deflate && (mode.Name == "server/takeover" || mode.Name == "client/takeover" || mode.Name == "client/takeover-client_no_ctx-resp")
@@ -631,7 +631,7 @@ func lenClass(n int) int {
 // delete, truncate) and purely random header-biased strings.
 func TestC03Raw(t *testing.T) {
 	rec := evid.For("C03")
-	rapid.Check(t, func(rt *rapid.T) {
+	checkProp(t, func(rt *rapid.T) {
 		mode := rapid.SampledFrom(c03Modes).Draw(rt, "mode")
 		deflate := mode.Mode != websocket.CompressionDisabled
 		takeover := deflate && (mode.Name == "server/takeover" || mode.Name == "client/takeover" || mode.Name == "client/takeover-client_no_ctx-resp")
